@@ -685,10 +685,18 @@ impl<DB: Database> Inspector<DB> for Mon {
             f.last_remaining = remaining;
             if res == InstructionResult::CallOrCreate {
                 // remember the parent's memory and the return window for the check at its next step
-                let (window, is_call) = match &interp.next_action {
+                let (mut window, is_call) = match &interp.next_action {
                     InterpreterAction::Call { inputs } => (inputs.return_memory_offset.clone(), true),
                     _ => (0..0, false),
                 };
+                // ground truth from the instruction set: EXTCALL / EXTDELEGATECALL / EXTSTATICCALL have
+                // no output window at all (return data is read with RETURNDATACOPY / RETURNDATALOAD)
+                if interp.is_eof && matches!(op, 0xf8 | 0xf9 | 0xfb) {
+                    if !window.is_empty() {
+                        viol.push(("C11", "C11/ext-call-carries-a-return-window".into(), format!("opcode {:#04x} asks for return data to be written to parent memory {}..{}", op, window.start, window.end)));
+                    }
+                    window = 0..0;
+                }
                 f.pending_child = Some((interp.shared_memory.context_memory().to_vec(), window, is_call));
             }
         }
